@@ -7,6 +7,7 @@ from .. import bits, paths
 from ..core import call_attr, calls_in, const, dotted, is_const, kwarg, norm, slice_parts, text, walk_local
 
 EXPLANATION = [
+    'C08.processor-arguments: ChannelManager.make_mode_processor passes its peer_* parameters (peer_mps in particular) to the ERTM processor unmodified.',
     'C08.reset-before-sink: EnhancedRetransmissionProcessor.on_pdu empties its reassembly buffer before the completed SDU is handed to the channel on every path.',
     'C08.frames-via-channel: every frame sent by a *Processor class of bumble.l2cap goes through self.channel.send_pdu (which applies the negotiated FCS); none is handed to the channel manager directly.',
     "C08.disconnecting-stays-registered: the failure handler of create_classic_channel does not remove a channel that is in WAIT_DISCONNECT: the peer's Disconnection Response still finds it and closes it, so a mode mismatch ends with both ends closed.",
@@ -652,7 +653,26 @@ def reset_before_sink(ctx):
     reset_before_handoff(ctx, 'C08.reset-before-sink', 'bumble.l2cap.EnhancedRetransmissionProcessor.on_pdu', 'self._in_sdu', 'self.channel.on_sdu')
 
 
+def processor_arguments(ctx):
+    """The ERTM processor segments to the MPS the peer gave: ChannelManager.make_mode_processor hands its peer_*
+    parameters to the processor as received (an MPS has no lower bound of 48: rounding it up sends I-frames larger than the
+    peer accepts)."""
+    R, p = ctx.r, ctx.p
+    rule = 'C08.processor-arguments'
+    fn = p.find('bumble.l2cap.ChannelManager.make_mode_processor')
+    if fn is None:
+        R.bad(rule, 'bumble.l2cap.ChannelManager.make_mode_processor', 'anchor missing')
+        return
+    params = [a.arg for a in fn.args.args if a.arg.startswith('peer_')]
+    re_ = [s_ for s_ in walk_local(fn) if isinstance(s_, (ast.Assign, ast.AugAssign)) and any(isinstance(x, ast.Name) and isinstance(x.ctx, ast.Store) and x.id in params for t in (s_.targets if isinstance(s_, ast.Assign) else [s_.target]) for x in ast.walk(t))]
+    R.check(not re_, rule, 'bumble.l2cap.ChannelManager.make_mode_processor | parameters', 'peer parameters are not modified', f'`{norm(re_[0])[:60] if re_ else ""}` changes what the peer negotiated before the processor gets it: I-frames are cut to another size than the MPS the peer accepts (or the window / retry count differs from the negotiated one)', p.loc(re_[0]) if re_ else p.loc(fn))
+    ctor = [c for c in calls_in(fn) if call_attr(c) == 'EnhancedRetransmissionProcessor']
+    ok = len(ctor) == 1 and all(isinstance(a, ast.Name) for a in ctor[0].args) and 'peer_mps' in [a.id for a in ctor[0].args if isinstance(a, ast.Name)]
+    R.check(ok, rule, 'bumble.l2cap.ChannelManager.make_mode_processor | constructor', 'the processor is built from the parameters themselves', 'the ERTM processor is not built from the plain peer_* parameters', p.loc(ctor[0]) if ctor else p.loc(fn))
+
+
 RULES = [
+    ('C08.processor-arguments', processor_arguments),
     ('C08.reset-before-sink', reset_before_sink),
     ('C08.frames-via-channel', frames_via_channel),
     ('C08.disconnecting-stays-registered', disconnecting_stays_registered),
